@@ -429,3 +429,68 @@ package netty
 //@ assume iface OutboundContext.HandleWrite
 //@   may_panic true
 //@   modifies all
+
+// ---------------------------------------------------------------------------
+// The channel: write path (C01 C02 C06 C09 C10 C11 C18), lifecycle (C05), containment (C07).
+//
+// Shared state of a channel is touched only at *atomic points*, which appear as events in the
+// ghost trace: "select send c.writeQueue", "select recv c.writeQueue", "len c.writeQueue",
+// "cas c.running", "store c.running", "load c.running", "cas c.closed", "load c.closed",
+// "lock c.writeLock"/"unlock c.writeLock", and the calls on c.transport / c.executor / c.cancel.
+//@ property C01 C02 C05 C06 C07 C09 C10 C11 C12 C18
+//@ field channel.closed atomic monotone
+//@ field channel.running atomic
+//@ assume iface Executor.Exec
+//@   requires recv != nil
+//@ assume functype context.CancelFunc
+//@ assume iface transport.Transport.Write
+//@   may_panic false
+//@ assume iface transport.Transport.Writev
+//@ assume iface transport.Transport.Flush
+//@ assume iface transport.Transport.Close
+//@ assume iface transport.Transport.SetWriteDeadline
+
+// what "Close has returned" leaves behind (stable: closed is monotone, a closed Done channel stays closed)
+//@ spec func closedState(c *channel) bool = c.closed == 1 && chclosed(ctxdone(c.ctx))
+//@ spec func chinv(c *channel) bool = c != nil && c.ctx != nil && c.transport != nil && c.executor != nil && c.cancel != nil && c.pipeline != nil
+//@ spec func asyncInv(c *channel) bool = chinv(c) && c.writeQueue != nil && cap(c.writeQueue) >= 1
+
+//@ func (*channel).asyncWrite
+//@   requires asyncInv(c) && ctx != nil && len(p) <= 1<<47
+//@   modifies ghost pooltyp, ghost chclosed, elems(uint8), cell([]byte), channel.running
+//@   ensures at_most_one_enqueue: count("select send c.writeQueue") <= 1
+//@   ensures enqueued_means_accepted: implies(count("select send c.writeQueue") == 1, result1 == nil && result0 == len(p))
+//@   ensures error_means_not_enqueued: implies(result1 != nil, count("select send c.writeQueue") == 0 && result0 == 0)
+//@   ensures success_means_enqueued: implies(result1 == nil && count("select recv c.ctx.Done()") == 0, count("select send c.writeQueue") == 1)
+//@   ensures snapshot: implies(count("select send c.writeQueue") == 1 && clone, evis(0, "pbytes.Get") && evis(2, "select send c.writeQueue") && at(2, len(evarg(2, 0)) == len(p) && arrof(evarg(2, 0)) == arrof(*evres(0, 0)) && arrof(evarg(2, 0)) != arrof(p) && seqeq(content(evarg(2, 0)), old(content(p)))))
+//@   ensures handoff: implies(count("select send c.writeQueue") == 1 && !clone, evis(1, "select send c.writeQueue") && sameslice(evarg(1, 0), p))
+//@   ensures kick_clone: implies(count("select send c.writeQueue") == 1 && clone, count("cas c.running") == 1 && evis(3, "cas c.running") && evarg(3, 0) == 0 && evarg(3, 1) == 1 && (count("Executor.Exec") == 1) == evres(3, 0))
+//@   ensures kick_noclone: implies(count("select send c.writeQueue") == 1 && !clone, count("cas c.running") == 1 && evis(2, "cas c.running") && evarg(2, 0) == 0 && evarg(2, 1) == 1 && (count("Executor.Exec") == 1) == evres(2, 0))
+//@   ensures kick_starts_sender: implies(count("Executor.Exec") == 1, evis(nemitted()-1, "Executor.Exec") && evrecv(nemitted()-1) == old(c.executor) && isbound(evarg(nemitted()-1, 0), "writeOnce", c))
+//@   ensures no_kick_without_enqueue: implies(count("select send c.writeQueue") == 0, count("cas c.running") == 0 && count("Executor.Exec") == 0)
+//@   ensures mode: implies(old(c.untilWrite), count("select nonblocking") == 0) && implies(!old(c.untilWrite), count("select blocking") == 0) && count("select blocking") + count("select nonblocking") <= 1 && count("time.Sleep") == 0 && count("lock c.writeLock") == 0
+//@   ensures full_only_on_default: implies(count("select default") == 1, result1 == ErrAsyncNoSpace) && implies(result1 == ErrAsyncNoSpace && count("select recv c.ctx.Done()") == 0 && count("select recv ctx.Done()") == 0, count("select default") == 1)
+//@   ensures cancelled: implies(count("select recv ctx.Done()") == 1, result1 != nil && count("select send c.writeQueue") == 0)
+//@   ensures closed_branch_fails: implies(count("select recv c.ctx.Done()") == 1, result1 != nil)
+//@   ensures closed_rejects: implies(old(closedState(c)), result1 != nil && count("select send c.writeQueue") == 0)
+
+// asyncWritev: all buffers are merged into ONE packet (C09: a vectored message is one queue entry)
+//@ func (*channel).asyncWritev
+//@   requires asyncInv(c) && ctx != nil
+//@   modifies ghost pooltyp, ghost chclosed, elems(uint8), cell([]byte), channel.running
+//@   loop 0 modifies elems(uint8)
+//@   loop 0 invariant 0 <= offset && offset <= cap(dataBuff) && fresh(dataBuff) && -1 <= rangeindex && rangeindex < len(p)
+//@   loop 0 decreases len(p) - rangeindex
+//@   ensures at_most_one_enqueue: count("select send c.writeQueue") <= 1
+//@   ensures enqueued_means_accepted: implies(count("select send c.writeQueue") == 1, result1 == nil)
+//@   ensures error_means_not_enqueued: implies(result1 != nil, count("select send c.writeQueue") == 0 && result0 == 0)
+//@   ensures success_means_enqueued: implies(result1 == nil && count("select recv c.ctx.Done()") == 0, count("select send c.writeQueue") == 1)
+//@   ensures one_fresh_packet: implies(count("select send c.writeQueue") == 1, evis(0, "pbytes.Get") && evis(2, "select send c.writeQueue") && at(2, arrof(evarg(2, 0)) == arrof(*evres(0, 0)) && fresh(evarg(2, 0))))
+//@   ensures kick: implies(count("select send c.writeQueue") == 1, count("cas c.running") == 1 && evis(3, "cas c.running") && evarg(3, 0) == 0 && evarg(3, 1) == 1 && (count("Executor.Exec") == 1) == evres(3, 0))
+//@   ensures kick_starts_sender: implies(count("Executor.Exec") == 1, evis(nemitted()-1, "Executor.Exec") && evrecv(nemitted()-1) == old(c.executor) && isbound(evarg(nemitted()-1, 0), "writeOnce", c))
+//@   ensures no_kick_without_enqueue: implies(count("select send c.writeQueue") == 0, count("cas c.running") == 0 && count("Executor.Exec") == 0)
+//@   ensures mode: implies(old(c.untilWrite), count("select nonblocking") == 0) && implies(!old(c.untilWrite), count("select blocking") == 0) && count("select blocking") + count("select nonblocking") <= 1 && count("time.Sleep") == 0 && count("lock c.writeLock") == 0
+//@   ensures full_only_on_default: implies(count("select default") == 1, result1 == ErrAsyncNoSpace)
+//@   ensures cancelled: implies(count("select recv ctx.Done()") == 1, result1 != nil && count("select send c.writeQueue") == 0)
+//@   ensures closed_branch_fails: implies(count("select recv c.ctx.Done()") == 1, result1 != nil)
+//@   ensures closed_rejects: implies(old(closedState(c)), result1 != nil && count("select send c.writeQueue") == 0)
